@@ -224,7 +224,7 @@ func (v *Verifier) solveAll(x *Exec, obls []*Obligation, timeoutS int, stats *So
 				r = solve(o.Script, timeoutS, true)
 			}
 			o.Solver, o.Time, o.Output = r.solver, r.time, r.output
-			if strings.Contains(r.output, "(error ") && r.verdict == "unknown" && !strings.Contains(firstLine(r.output), "model is not available") {
+			if strings.Contains(r.output, "(error ") && r.verdict == "unknown" && !strings.Contains(firstLine(r.output), "model is not available") && !(r.solver == "cvc5" && strings.Contains(r.output, "expected a value")) {
 				fmt.Fprintf(os.Stderr, "gocv: solver error on %s: %s\n", o.Label, firstLine(r.output))
 			}
 			if o.ExpectSat {
